@@ -798,6 +798,14 @@ class CallMixin:
     def bind_args(self, c, args, kwargs):
         params = c.params
         bound = {}
+        if params and params[-1].startswith("**"):
+            # **name: the remaining keyword arguments as a dict value
+            fixed = [q for q in params[:-1]]
+            names = {q.lstrip("*") for q in fixed}
+            extra = {k: v for k, v in kwargs.items() if k not in names}
+            kwargs = {k: v for k, v in kwargs.items() if k in names}
+            bound[params[-1][2:]] = extra
+            params = fixed
         if params and params[-1].startswith("*"):
             fixed = params[:-1]
             bound[params[-1][1:]] = tuple(args[len(fixed):])
